@@ -201,6 +201,9 @@ pub fn generate(prop: &str, tier: &str, seed: u64, out: &Path, nshards: usize, r
         }
         // hand-built associated-type families (X<A1>, X<A2> with Inner = u8, X<B> with Inner = u32) in
         // several orders; also fed to C01
+        for rj in crate::tgprops::skip_flip_families() {
+            push("skip-flip", &rj, None, &mut shards, &mut meta);
+        }
         for rj in crate::tgprops::three_member_families() {
             push("three-members", &rj, None, &mut shards, &mut meta);
         }
